@@ -178,6 +178,12 @@ theorem C08_rows_same_function (m : MatrixModel) (ha : ∀ c ∈ m.A.index, c < 
     unfold feedConBounds
     rw [getD_map_range _ _ _ hi]
 
+/-- Jacobian column sizes (k segment: all positions but the last) follow their columns -/
+theorem C08_colsizes_follow (m : MatrixModel) (j : Nat) (hj : j < m.n) (hl : vperm m j < m.n - 1) :
+    (feedColumnSizes m).getD (vperm m j) 0 = m.A.index.count j := by
+  unfold feedColumnSizes colSize
+  rw [getD_map_range _ _ _ hl, vpermInv_vperm m hj]
+
 /-! ## 4. Objective -/
 
 /-- the objective written to NL (gradient + expression tree), evaluated at the permuted image of any
